@@ -540,15 +540,17 @@ def c11(c):
             os.makedirs(d, exist_ok=True)
             info.extend(sgen.gen(per, cx.seed * 100 + g, os.path.join(d, "c11_sigs.hpp")))
         return True, ""
-    units, runs = [], []
+    units, runs = guest_libs(), []
     for g in range(groups):
         inc = ["-I" + os.path.join(c.bdir, "gen%d" % g)]
         for cfg in (["ilp32", "wide"] if (c.thorough or g % 2 == 0) else ["ilp32"]):
             nm = "c11_%s_g%d" % (cfg, g)
-            units.append(dict(name=nm, srcs=[D + "c11_invoke.cpp"], build="asan0", defs=EXC + ["CFG=vsbx_" + cfg], flags=inc, libs=["-ldl"]))
+            units.append(dict(name=nm, srcs=[D + "c11_invoke.cpp"], build="asan0", defs=EXC + ["CFG=vsbx_" + cfg], flags=inc, libs=["-ldl"], needs=["libguest1.so", "libguest2.so"]))
             runs.append(dict(unit=nm, label=nm + "[model]", args=[0]))
             if cfg == "ilp32":
                 runs.append(dict(unit=nm, label=nm + "[noop]", args=[1]))
+                if g == 0:
+                    runs.append(dict(unit=nm, label=nm + "[dylib]", args=[2], env=guest_env(c)))
     return dict(units=units, runs=runs, pre=[gen], evidence=dict(
         level="exploration",
         rule="signature family generated per run from VERIF_SEED (0..12 parameters over every integer kind, bool, enum, float, double, int*, const char*, "
@@ -560,7 +562,8 @@ def c11(c):
              "the named function in the library of the instance used with every argument word equal to the reference conversion, or no call and an "
              "abort when an argument is unrepresentable; the tainted result must equal the reference conversion of what the guest returned (abort if "
              "unrepresentable); the sandbox function address taken before/after invocation must be the backend's table representation and invocation "
-             "must never go through the internal-representation stub. Backends: model ILP32 and WIDE by name, noop through the static-call path.",
+             "must never go through the internal-representation stub. Backends: model ILP32 and WIDE by name, noop through the static-call path, dylib over two "
+             "shared objects built at check time (interleaved instances, re-creation over the other library, function addresses against an independent dlsym).",
         exhaustive=False,
         assumptions=["arguments have the parameter's own type (the statement's precondition)"]))
 
